@@ -17,13 +17,15 @@ HERE = os.path.dirname(os.path.abspath(__file__))
 
 
 # ---- TLC -------------------------------------------------------------------------------------------
-def run_tlc(N, PS, Q, workdir):
+def run_tlc(N, PS, Q, workdir, dump=True):
     os.makedirs(workdir, exist_ok=True)
     shutil.copy(os.path.join(HERE, "PoolProto.tla"), workdir)
     cfg = open(os.path.join(HERE, "PoolProto.cfg.tmpl")).read() % {"N": N, "PS": PS, "Q": Q}
     open(os.path.join(workdir, "PoolProto.cfg"), "w").write(cfg)
-    cmd = ["tlc", "-workers", "1", "-noGenerateSpecTE", "-metadir", os.path.join(workdir, "meta"),
-           "-dump", "dot,actionlabels", os.path.join(workdir, "graph.dot"), "-config", "PoolProto.cfg", "PoolProto.tla"]
+    cmd = ["tlc", "-workers", "1" if dump else "4", "-noGenerateSpecTE", "-metadir", os.path.join(workdir, "meta")]
+    if dump:
+        cmd += ["-dump", "dot,actionlabels", os.path.join(workdir, "graph.dot")]
+    cmd += ["-config", "PoolProto.cfg", "PoolProto.tla"]
     r = subprocess.run(cmd, cwd=workdir, capture_output=True, text=True, timeout=3600)
     out = r.stdout + r.stderr
     ok = "Model checking completed. No error has been found." in out
